@@ -31,6 +31,7 @@ RULE = (
     "len(utf8(out)) <= L; strict and U > L => OutputStreamLimitError; every assign that returns normally leaves chain size <= M. "
     "Non-trivial = U > 0 with at least one multi-byte character or a capture/partial, distinct by (templates, data)."
     " Rounds 5-6 added enumerated families: every nesting (depth 1-3) of the buffering tags under every limit value; refused assignments in tolerant modes (the namespace of a render that goes on is measured after the refusal)."
+    " Round 7 added: twin runs under liquid.future.Environment with the hook on its context class."
 )
 REQUIRED = [
     ("liquid/output.py", "LimitedStringIO.write"),
